@@ -22,6 +22,9 @@ Proof. intros H. unfold tabs. rewrite zlen_repeat. lia. Qed.
 Lemma zlen_0_nil {A} (l : list A) : zlen l = 0 -> l = [].
 Proof. destruct l; [reflexivity|]. rewrite zlen_cons. pose proof (zlen_nonneg l). lia. Qed.
 
+(* both sides of a list equation to right-nested appends / conses *)
+Ltac norm_list := repeat (progress (rewrite <- ?app_assoc; cbn [app])).
+
 Ltac zl := repeat (rewrite ?zlen_app, ?zlen_cons, ?zlen_nil in * ).
 
 (** ------------------------------------------------------------------ checked writes *)
